@@ -521,10 +521,31 @@ Theorem C13_num_int_small_is_double : forall z, Z.abs z < 2 ^ 53 -> dbl_exact z 
 Proof. exact dbl_exact_small. Qed.
 Print Assumptions C13_num_int_small_is_double.
 
+(* after the fix of D111: an int whose decimal string does not fit is ALSO kept
+   in FloatingPointValue (exactly then), and whatever its size the written
+   attributes are read back as the same value by the accessors, by from_dataset
+   and by from_sequence - so .value = float(v) on every path, which is v itself
+   iff v is an exact double (dbl_exact; always for |v| < 2^53) *)
+Theorem C13_num_int_float_iff : forall z, num_int_has_float z = true <-> (z <= - 10 ^ 15 \/ 10 ^ 16 <= z).
+Proof. exact num_int_float_iff. Qed.
+Print Assumptions C13_num_int_float_iff.
+
+Theorem C13_num_int_roundtrip : forall z n r u ql,
+  let v := num_of_int z u ql in
+  let t := Item NumContentItem n r v [] in
+  read_value NumContentItem (item_attrs n r v []) = Ok v /\
+  parse (Some NumContentItem) (to_ds t) = Ok t /\
+  (r <> None -> parse None (to_ds t) = Ok t).
+Proof. exact num_int_roundtrip. Qed.
+Print Assumptions C13_num_int_roundtrip.
+
 Example C13_num_int_nonvacuous :
   int_strlen (-999999999999999) = 16 /\ num_int_exact (-999999999999999) = true /\
   num_int_exact (- 10 ^ 15) = false /\ num_int_exact (10 ^ 16 - 1) = true /\ num_int_exact (10 ^ 16) = false /\
-  dbl_exact (2 ^ 53 + 1) = false /\ dbl_exact (2 ^ 53 + 2) = true.
+  dbl_exact (2 ^ 53 + 1) = false /\ dbl_exact (2 ^ 53 + 2) = true /\
+  run_num_int (10 ^ 16) = VL [VB false; VB true; VB true] /\
+  run_num_int (10 ^ 17 + 1) = VL [VB false; VB true; VB false] /\
+  run_num_int (2 ^ 53 + 1) = VL [VB true; VB false; VB false].
 Proof. vm_compute. repeat split; reflexivity. Qed.
 Print Assumptions C13_num_int_nonvacuous.
 
